@@ -183,7 +183,8 @@ CHECKS = {
         "level_text": "Generated-history exploration: each case is a work list of encode/decode jobs of mixed versions, types and encodings plus a schedule (goroutine count, start permutation, history prefix); three fresh processes execute it - sequentially, concurrently from a cold start (so the lazily built per-type plans are constructed under contention), and on reused cleared encoders in another order - and every job's digest over all four encodings and the text round trips must be identical. A race-built variant of the same test fails on any data race report.",
         "level_note": "Interleavings are explored by real concurrent execution from cold starts (the scheduler is not controlled); the race detector only sees races that occur in the executions run.",
         "jobs": [rapid("codec", "TestC20History", 120, 600, shards=8),
-                 dict(rapid("codec", "TestC20History", 4, 20, shards=4), race="always", timeout_s={"quick": 600, "thorough": 1500})],
+                 dict(rapid("codec", "TestC20History", 4, 20, shards=4), race="always", timeout_s={"quick": 600, "thorough": 1500}),
+                 rapid("codec", "TestC20Appended", 3000, 30000)],
         "assumptions": ["children inherit the same environment (time zone), so date formatting is identical"],
     },
     "C03": {
